@@ -217,4 +217,150 @@ theorem Fails.seqL {pre : List G} {g : G} {post : List G} {ts r : List Tok} {vs 
       rw [hp] at this
       exact Fails.map (Fails.seq2 ha this)
 
+/-! ### failing AT the input position (what `recover .silentAt` resumes at) -/
+
+/-- some fuel makes `g` fail on `ts` with the error position `ts` itself and without a diagnostic -/
+def FailsAt (g : G) (ts : List Tok) : Prop := ∃ f m, runP Γ Δ f g ts = (.err ts m, [])
+
+theorem FailsAt.fails {g : G} {ts : List Tok} (h : FailsAt g ts) : Fails g ts := by
+  obtain ⟨f, m, h⟩ := h
+  exact ⟨f, ts, m, h⟩
+
+theorem FailsAt.tok {k : Kind} {t : Tok} {r : List Tok} (h : t.kind ≠ k) (hc : t.kind ≠ Kind.Comment) :
+    FailsAt (.tok k) (t :: r) := by
+  obtain ⟨m, hm⟩ := expTok_miss (r := r) h hc
+  exact ⟨1, m, by simp [runP, hm]⟩
+
+theorem FailsAt.seq1 {a b : G} {ts : List Tok} (ha : FailsAt a ts) : FailsAt (.seq a b) ts := by
+  obtain ⟨f, m, h⟩ := ha
+  exact ⟨f + 1, m, by simp only [runP, h]⟩
+
+theorem FailsAt.alt {a b : G} {ts : List Tok} (ha : FailsAt a ts) (hb : FailsAt b ts) : FailsAt (.alt a b) ts := by
+  obtain ⟨f1, m1, h1⟩ := ha
+  obtain ⟨f2, m2, h2⟩ := hb
+  exact ⟨max f1 f2 + 1, m1, by
+    simp only [runP, lift_err h1 (Nat.le_max_left f1 f2), lift_err h2 (Nat.le_max_right f1 f2), List.append_nil,
+      Nat.lt_irrefl, gt_iff_lt, ↓reduceIte]⟩
+
+theorem FailsAt.map {fn : Tree → Tree} {g : G} {ts : List Tok} (h : FailsAt g ts) : FailsAt (.map fn g) ts := by
+  obtain ⟨f, m, h⟩ := h
+  exact ⟨f + 1, m, by simp only [runP, h]⟩
+
+theorem FailsAt.ref {n : Nat} {ts : List Tok} (h : FailsAt (Γ n) ts) : FailsAt (.ref n) ts := by
+  obtain ⟨f, m, h⟩ := h
+  exact ⟨f + 1, m, by simp only [runP, h]⟩
+
+theorem FailsAt.memo {c : Nat} {b : Bool} {ts : List Tok} (h : FailsAt (Δ c) ts) : FailsAt (.memo c b) ts := by
+  obtain ⟨f, m, h⟩ := h
+  exact ⟨f + 1, m, by simp only [runP, h]⟩
+
+theorem FailsAt.altL {gs : List G} {ts : List Tok} (hne : gs ≠ []) (h : ∀ a ∈ gs, FailsAt a ts) : FailsAt (altL gs) ts := by
+  induction gs with
+  | nil => exact absurd rfl hne
+  | cons a rest ih =>
+    cases rest with
+    | nil => exact h a List.mem_cons_self
+    | cons b rest2 =>
+      rw [altL_cons2]
+      exact FailsAt.alt (h a List.mem_cons_self) (ih (by simp) (fun x hx => h x (List.mem_cons_of_mem _ hx)))
+
+theorem FailsAt.toks {ks : List Kind} {t : Tok} {r : List Tok} (hne : ks ≠ []) (h : t.kind ∉ ks) (hc : t.kind ≠ Kind.Comment) :
+    FailsAt (toks ks) (t :: r) := by
+  unfold Gram.toks
+  refine FailsAt.altL (by simpa using hne) ?_
+  intro a ha
+  obtain ⟨k, hk, rfl⟩ := List.mem_map.mp ha
+  exact FailsAt.tok (fun e => h (e ▸ hk)) hc
+
+/-- a sequence whose first member fails at the input position -/
+theorem FailsAt.seqL {g : G} {post : List G} {ts : List Tok} (hg : FailsAt g ts) : FailsAt (seqL (g :: post)) ts := by
+  cases post with
+  | nil => exact FailsAt.map hg
+  | cons p ps => rw [seqL_cons2]; exact FailsAt.map (FailsAt.seq1 hg)
+
+/-! ### the remaining primitives: `opt`, `check`, `ifEof`, `ifTok`, `recover`, `dep` -/
+
+theorem Parses.opt_some {a : G} {ts r : List Tok} {v : Tree} (h : Parses a ts r v) : Parses (.opt a) ts r v := by
+  obtain ⟨f, h⟩ := h
+  exact ⟨f + 1, by simp only [runP, h]⟩
+
+theorem Parses.opt_none {a : G} {ts : List Tok} (h : Fails a ts) : Parses (.opt a) ts ts Tree.none := by
+  obtain ⟨f, e, m, h⟩ := h
+  exact ⟨f + 1, by simp only [runP, h]⟩
+
+theorem Parses.check {p : Tree → Bool} {msg : String} {g : G} {ts r : List Tok} {v : Tree}
+    (h : Parses g ts r v) (hp : p v = true) : Parses (.check p msg g) ts r v := by
+  obtain ⟨f, h⟩ := h
+  exact ⟨f + 1, by simp only [runP, h, hp, ↓reduceIte]⟩
+
+theorem Fails.check1 {p : Tree → Bool} {msg : String} {g : G} {ts : List Tok} (h : Fails g ts) : Fails (.check p msg g) ts := by
+  obtain ⟨f, e, m, h⟩ := h
+  exact ⟨f + 1, e, m, by simp only [runP, h]⟩
+
+theorem Fails.check2 {p : Tree → Bool} {msg : String} {g : G} {ts r : List Tok} {v : Tree}
+    (h : Parses g ts r v) (hp : p v = false) : Fails (.check p msg g) ts := by
+  obtain ⟨f, h⟩ := h
+  exact ⟨f + 1, r, msg, by simp [runP, h, hp]⟩
+
+theorem Parses.ifEof_nil {a b : G} {r : List Tok} {v : Tree} (h : Parses a [] r v) : Parses (.ifEof a b) [] r v := by
+  obtain ⟨f, h⟩ := h
+  exact ⟨f + 1, by simp only [runP, h]⟩
+
+theorem Parses.ifEof_cons {a b : G} {t : Tok} {ts r : List Tok} {v : Tree} (h : Parses b (t :: ts) r v) :
+    Parses (.ifEof a b) (t :: ts) r v := by
+  obtain ⟨f, h⟩ := h
+  exact ⟨f + 1, by simp only [runP, h]⟩
+
+theorem Fails.ifEof_cons {a b : G} {t : Tok} {ts : List Tok} (h : Fails b (t :: ts)) : Fails (.ifEof a b) (t :: ts) := by
+  obtain ⟨f, e, m, h⟩ := h
+  exact ⟨f + 1, e, m, by simp only [runP, h]⟩
+
+theorem firstReal_cons {t : Tok} {r : List Tok} (hc : t.kind ≠ Kind.Comment) : firstReal (t :: r) = some (t, r) := by
+  simp [firstReal, hc]
+
+theorem Parses.ifTok_hit {ks : List Kind} {a b : G} {ts rest r : List Tok} {t : Tok} {v : Tree}
+    (hf : firstReal ts = some (t, rest)) (hk : ks.contains t.kind = true) (h : Parses a rest r v) :
+    Parses (.ifTok ks a b) ts r (Tree.seq [.leaf t, v]) := by
+  obtain ⟨f, h⟩ := h
+  exact ⟨f + 1, by simp only [runP, hf, hk, ↓reduceIte, h]⟩
+
+theorem Parses.ifTok_miss {ks : List Kind} {a b : G} {ts rest r : List Tok} {t : Tok} {v : Tree}
+    (hf : firstReal ts = some (t, rest)) (hk : ks.contains t.kind = false) (h : Parses b ts r v) :
+    Parses (.ifTok ks a b) ts r v := by
+  obtain ⟨f, h⟩ := h
+  exact ⟨f + 1, by simp only [runP, hf, hk, Bool.false_eq_true, ↓reduceIte, h]⟩
+
+theorem Parses.ifTok_none {ks : List Kind} {a b : G} {ts r : List Tok} {v : Tree}
+    (hf : firstReal ts = none) (h : Parses b ts r v) : Parses (.ifTok ks a b) ts r v := by
+  obtain ⟨f, h⟩ := h
+  exact ⟨f + 1, by simp only [runP, hf, h]⟩
+
+/-- the item succeeds: no recovery -/
+theorem Parses.recover {m : RecMode} {g : G} {ts r : List Tok} {v : Tree} (h : Parses g ts r v) :
+    Parses (.recover m g) ts r v := by
+  obtain ⟨f, h⟩ := h
+  exact ⟨f + 1, by simp only [runP, h]⟩
+
+/-- `match p(next) { Err(e) => (e.input, default) }` when the item fails where it started: nothing consumed, no diagnostic -/
+theorem Parses.recover_silent {g : G} {ts : List Tok} (h : FailsAt g ts) : Parses (.recover .silentAt g) ts ts Tree.none := by
+  obtain ⟨f, m, h⟩ := h
+  exact ⟨f + 1, by simp only [runP, h, recoverStep, List.append_nil]⟩
+
+theorem Parses.dep_yes {a b : G} {test : Tree → Bool} {ts r r2 : List Tok} {va vb : Tree}
+    (ha : Parses a ts r va) (ht : test va = true) (hb : Parses b r r2 vb) :
+    Parses (.dep a test b) ts r2 (Tree.seq [va, vb]) := by
+  obtain ⟨f1, h1⟩ := ha
+  obtain ⟨f2, h2⟩ := hb
+  refine ⟨max f1 f2 + 1, ?_⟩
+  simp only [runP, lift_ok h1 (Nat.le_max_left f1 f2), lift_ok h2 (Nat.le_max_right f1 f2), ht, ↓reduceIte, List.append_nil]
+
+theorem Parses.dep_no {a b : G} {test : Tree → Bool} {ts r : List Tok} {va : Tree}
+    (ha : Parses a ts r va) (ht : test va = false) : Parses (.dep a test b) ts r (Tree.seq [va, Tree.none]) := by
+  obtain ⟨f, h⟩ := ha
+  exact ⟨f + 1, by simp only [runP, h, ht, Bool.false_eq_true, ↓reduceIte]⟩
+
+theorem Fails.dep1 {a b : G} {test : Tree → Bool} {ts : List Tok} (ha : Fails a ts) : Fails (.dep a test b) ts := by
+  obtain ⟨f, e, m, h⟩ := ha
+  exact ⟨f + 1, e, m, by simp only [runP, h]⟩
+
 end Gold.Gram
